@@ -318,4 +318,40 @@ def c19_runners():
             return tebd.compute(end_step=3, progress_type=progress_type)
         return f, call
     runners["PtTebd.compute"] = (["PtTebd.compute"], tebd_build)
+
+    def tebd_par_build(mode, nsites):
+        # the documented backend option {'parallel': ...}: one executor pool per gate layer;
+        # fault "pool-submit" is ticked by the harness' logging executor at every submit()
+        def build():
+            f = {"process_tensor": Fault(), "pool-submit": Fault()}
+
+            class FaultyPT(oqupy.SimpleProcessTensor):
+                def get_mpo_tensor(self, step, transformed=True):
+                    f["process_tensor"].tick()
+                    return super().get_mpo_tensor(step, transformed)
+            pt = FaultyPT(hilbert_space_dimension=2, dt=0.1)
+            eye = np.eye(4, dtype=complex).reshape(1, 1, 4, 4)
+            for k in range(4):
+                pt.set_mpo_tensor(k, eye)
+            pt.compute_caps()
+            chain = oqupy.SystemChain(hilbert_space_dimensions=[2] * nsites)
+            chain.add_site_hamiltonian(site=0, hamiltonian=sz)
+            for n in range(nsites - 1):
+                chain.add_nn_hamiltonian(site=n, hamiltonian_l=sx, hamiltonian_r=sx)
+            tebd = oqupy.PtTebd(initial_augmented_mps=oqupy.AugmentedMPS([up] * nsites),
+                                system_chain=chain,
+                                process_tensors=[pt] + [None] * (nsites - 1),
+                                parameters=oqupy.PtTebdParameters(dt=0.1, order=1,
+                                                                  epsrel=1.0e-4),
+                                dynamics_sites=[0], backend_config={"parallel": mode})
+
+            def call(progress_type):
+                return tebd.compute(end_step=2, progress_type=progress_type)
+            call.keep = tebd      # the caller keeps the object, as a user would
+            return f, call
+        return build
+    runners["PtTebd.compute/multithread"] = (["PtTebd.compute"], tebd_par_build("multithread", 4))
+    mp = tebd_par_build("multiprocess", 3)
+    mp.light = True             # process pools are slow to start: few runs in the quick tier
+    runners["PtTebd.compute/multiprocess"] = (["PtTebd.compute"], mp)
     return runners
